@@ -1277,3 +1277,134 @@ Example C06_tr_ex_exec_nonvacuous : exists tr m',
     (TrExParse.exec_mem TrExParseEx.m2) 0 m' /\
   map TrExParse.triple_of tr = [([49%N], [112%N], []); ([], [122; 122]%N, [])].
 Proof. exact TrExParseEx.runs_nonvacuous. Qed.
+
+(* ------------------------------------------------------------------------------------------------------------------------------
+   TEXT EXCHANGED WITH EXTERNAL COMMANDS (round i/j): `beg,end!cmd`, `rx reg cmd`, `addr r !cmd`, `addr r file`.
+   ExPipeDefs.v adds ec_rx and ec_read_pipe (r !cmd) to the model (ex_command_x / ex_main_x: the first command of an input line may be
+   one of them; the extracted ex_main_x is what the correspondence runs) and the feeding loop of cmd.c's cmd_pipe().  The external
+   command is an arbitrary function from (command, input bytes) to output bytes; the theorems below hold for EVERY output byte string,
+   written as join_lines l ++ t: newline-free lines l, each with its newline, and a newline-free rest t without one
+   (C06_text_decomposition: every byte string has this form).  text_lines l t = l, plus t as one more line when it is not empty. *)
+From NV Require ExStrDefs ExPipeDefs ExPipeProps.
+
+Theorem C06_text_decomposition : forall s, exists l t,
+  forallb ExStrDefs.nonl l = true /\ ExStrDefs.nonl t = true /\ s = join_lines l ++ t.
+Proof. exact ExPipeProps.bytes_decomp. Qed.
+Print Assumptions C06_text_decomposition.
+
+(* the lines the splice primitive makes of a text (split_lines = linecount / linelength of lbuf_replace): the terminated lines, and the
+   unterminated rest as a last line of its own -- the missing newline is supplied, no line is lost; the empty text has no line *)
+Theorem C06_text_lines : forall l t, forallb ExStrDefs.nonl l = true -> ExStrDefs.nonl t = true ->
+  split_lines (join_lines l ++ t) = ExPipeProps.text_lines l t /\
+  (t <> [] -> split_lines (join_lines l ++ t) = l ++ [t]) /\ split_lines (join_lines l) = l.
+Proof. exact (fun l t Hl Ht => conj (ExPipeProps.split_text l t Hl Ht) (conj (ExPipeProps.split_unterminated l t Hl Ht) (ExPipeProps.split_terminated l Hl))). Qed.
+Print Assumptions C06_text_lines.
+
+(* the filter: for every output of the command the addressed lines [b,e) are replaced by exactly the lines of the output and every other
+   line keeps its place (splice); the current line number, the registers and the printed output are those after address resolution;
+   the mark rows are the reference's ref_marks_edit; the command succeeds *)
+Theorem C06_filter_output : forall rvalid rfind (filter : bytes -> bytes -> option bytes) loc arg s b e s1 l t,
+  xwa s = true -> plain_arg arg = true -> loc <> [] ->
+  ex_region rvalid rfind loc s = (false, b, e, s1) -> ex_zero loc b e = false ->
+  forallb ExStrDefs.nonl l = true -> ExStrDefs.nonl t = true ->
+  filter arg (ref_range (texts s) b e) = Some (join_lines l ++ t) ->
+  let s' := fst (ec_exec rvalid rfind filter loc arg s) in
+  texts s' = splice (Z.to_nat b) (Z.to_nat e) (ExPipeProps.text_lines l t) (texts s) /\
+  xrow s' = xrow s1 /\ regs s' = regs s1 /\ out s' = out s1 /\
+  map fst (marks (lb s')) = ref_marks_edit (Some (join_lines l ++ t)) b e (map fst (marks (lb s))) /\
+  snd (ec_exec rvalid rfind filter loc arg s) = 0.
+Proof. exact ExPipeProps.filter_output. Qed.
+Print Assumptions C06_filter_output.
+
+(* the INPUT of the filter: the command's result depends on the external command only through its answer to ONE input -- ref_range, the
+   concatenation of the addressed lines, each with its newline -- whatever the size of that text *)
+Theorem C06_filter_input_only : forall rvalid rfind (f1 f2 : bytes -> bytes -> option bytes) loc arg s,
+  xwa s = true ->
+  (forall b e s1, ex_region rvalid rfind loc s = (false, b, e, s1) ->
+     f1 arg (ref_range (texts s) b e) = f2 arg (ref_range (texts s) b e)) ->
+  ec_exec rvalid rfind f1 loc arg s = ec_exec rvalid rfind f2 loc arg s.
+Proof. exact ExPipeProps.filter_input_only. Qed.
+Print Assumptions C06_filter_input_only.
+
+(* ... and cmd_pipe() hands that text to the command unchanged: under EVERY schedule of write() results without a failing or empty
+   write and with more POLLOUT events than bytes, whatever the size of each partial write, exactly the text reaches the pipe, once,
+   in order, and the descriptor is closed with nw = slen; under ANY schedule what reached the pipe is a prefix of the text of length nw *)
+Theorem C06_pipe_feed_all : forall sched ibuf, ExPipeDefs.sched_ok sched = true -> (length ibuf < length sched)%nat ->
+  ExPipeDefs.pipe_feed ibuf 0 sched = (ibuf, length ibuf, true).
+Proof. exact ExPipeProps.feed_all. Qed.
+Print Assumptions C06_pipe_feed_all.
+Theorem C06_pipe_feed_prefix : forall sched ibuf nw d n2 c, (nw <= length ibuf)%nat -> ExPipeDefs.pipe_feed ibuf nw sched = (d, n2, c) ->
+  d = firstn (n2 - nw) (skipn nw ibuf) /\ (nw <= n2 <= length ibuf)%nat.
+Proof. exact ExPipeProps.feed_prefix. Qed.
+Print Assumptions C06_pipe_feed_prefix.
+
+(* rx: the register's text is the input, the output bytes become the register's text through reg_put (C06_numbered_push: what that
+   does to the numbered registers); lines, marks, current line, printed output, pending input are untouched (set_regs) *)
+Theorem C06_rx_effect : forall (filter : bytes -> bytes -> option bytes) arg s reg cmd text rep,
+  ExPipeDefs.ex_reg arg = (reg, cmd) -> reg <> 0%N -> plain_arg cmd = true -> reg_special reg = false ->
+  reg_get s reg = Some text -> filter cmd text = Some rep ->
+  ExPipeDefs.ec_rx filter arg s = (set_regs s (reg_put (regs s) reg rep), 0).
+Proof. exact ExPipeProps.rx_effect. Qed.
+Print Assumptions C06_rx_effect.
+Theorem C06_rx_input_only : forall (f1 f2 : bytes -> bytes -> option bytes) arg s,
+  (forall text, reg_get s (fst (ExPipeDefs.ex_reg arg)) = Some text ->
+     f1 (snd (ExPipeDefs.ex_reg arg)) text = f2 (snd (ExPipeDefs.ex_reg arg)) text) ->
+  ExPipeDefs.ec_rx f1 arg s = ExPipeDefs.ec_rx f2 arg s.
+Proof. exact ExPipeProps.rx_input_only. Qed.
+Print Assumptions C06_rx_input_only.
+(* ... and a put from that register afterwards adds exactly the lines of the output after the addressed line *)
+Theorem C06_rx_then_put : forall rvalid rfind (filter : bytes -> bytes -> option bytes) arg s c cmd text l t loc b e s1,
+  ExPipeDefs.ex_reg arg = (c, cmd) -> islower c = true -> plain_arg cmd = true ->
+  reg_get s c = Some text -> forallb ExStrDefs.nonl l = true -> ExStrDefs.nonl t = true -> filter cmd text = Some (join_lines l ++ t) ->
+  let sx := fst (ExPipeDefs.ec_rx filter arg s) in
+  ex_region rvalid rfind loc sx = (false, b, e, s1) ->
+  let s' := fst (ec_put rvalid rfind loc [c] sx) in
+  lb sx = lb s /\ xrow sx = xrow s /\ out sx = out s /\
+  (texts s', xrow s') = ref_put (texts s) b e (ExPipeProps.text_lines l t).
+Proof. exact ExPipeProps.rx_then_put. Qed.
+Print Assumptions C06_rx_then_put.
+
+(* r !cmd and r file: the lines of the bytes that arrive are added after the addressed line (at the top of an empty buffer: ref_read), the
+   current line becomes the last of them (e + number of lines - 1), the message is printed; for r !cmd also registers and mark rows *)
+Theorem C06_read_pipe : forall rvalid rfind (cmdout : bytes -> option bytes) loc arg s b e s1 c cmd l t,
+  ex_region rvalid rfind loc s = (false, b, e, s1) -> tl arg = c :: cmd ->
+  forallb ExStrDefs.nonl l = true -> ExStrDefs.nonl t = true -> cmdout (c :: cmd) = Some (join_lines l ++ t) ->
+  let s' := fst (ExPipeDefs.ec_read_pipe rvalid rfind cmdout loc arg s) in
+  (texts s', xrow s') = ref_read (texts s) b e (ExPipeProps.text_lines l t) /\ out s' = OMsg M_READ :: out s1 /\ regs s' = regs s1 /\
+  map fst (marks (lb s')) =
+    ref_marks_edit (Some (join_lines l ++ t)) (if slen s =? 0 then 0 else e) (if slen s =? 0 then 0 else e) (map fst (marks (lb s))).
+Proof. exact ExPipeProps.read_pipe_refines. Qed.
+Print Assumptions C06_read_pipe.
+Theorem C06_read_file_lines : forall rvalid rfind (readfile : bytes -> option bytes) (curpath : bytes) loc arg s b e s1 l t,
+  ex_region rvalid rfind loc s = (false, b, e, s1) ->
+  negb (plain_arg arg) || (hd0 arg =? 33)%N = false ->
+  forallb ExStrDefs.nonl l = true -> ExStrDefs.nonl t = true ->
+  readfile (match arg with [] => curpath | _ => arg end) = Some (join_lines l ++ t) ->
+  let s' := fst (ec_read rvalid rfind readfile curpath loc arg s) in
+  (texts s', xrow s') = ref_read (texts s) b e (ExPipeProps.text_lines l t) /\ out s' = OMsg M_READ :: out s1.
+Proof. exact ExPipeProps.read_file_lines. Qed.
+Print Assumptions C06_read_file_lines.
+
+(* the extended line executor is ExDefs.ex_command on every line whose first command is neither rx nor r / read *)
+Theorem C06_command_x_other : forall rvalid rfind filter cmdout readfile curpath fuel ln s,
+  bytes_eqb (snd (ex_cmd (fst (ex_loc ln)))) ExPipeDefs.RX = false ->
+  bytes_eqb (snd (ex_cmd (fst (ex_loc ln)))) ExPipeDefs.RD = false -> bytes_eqb (snd (ex_cmd (fst (ex_loc ln)))) ExPipeDefs.READ = false ->
+  ExPipeDefs.ex_command_x rvalid rfind filter cmdout readfile curpath fuel ln s = ex_command rvalid rfind filter readfile curpath fuel ln s.
+Proof. exact ExPipeProps.command_x_other. Qed.
+Print Assumptions C06_command_x_other.
+
+(* non-vacuity.  (1) the lines of "a\nb\nlast", "only", "" and "a\n".  (2) a 5-byte text through a pipe that takes 3 bytes first: the loop
+   of cmd_pipe delivers it; the loop without the pointer advance (pipe_feed_noadv) re-sends the start: 1 2 3 1 2.  (3) ex_main_x on
+   L1..L4 with the script `2,3y a / rx a j / $pu a / 1r !c / 2,3!j`, every filter answering the unterminated "X+Y" and `c` printing
+   "x\ny": L1 X+Y L2 L3 L4 X+Y (the register filter, the put, the read and the filter each deliver their unterminated last line). *)
+Example C06_pipe_nonvacuous :
+  split_lines [97; 10; 98; 10; 108; 97; 115; 116]%N = [[97]; [98]; [108; 97; 115; 116]]%N /\
+  split_lines [111; 110; 108; 121]%N = [[111; 110; 108; 121]]%N /\ split_lines [] = [] /\ split_lines [97; 10]%N = [[97]]%N /\
+  ExPipeDefs.pipe_feed [1; 2; 3; 4; 5]%N 0 [ExPipeDefs.WAcc 3; ExPipeDefs.WAcc 9] = ([1; 2; 3; 4; 5]%N, 5%nat, true) /\
+  ExPipeDefs.pipe_feed_noadv [1; 2; 3; 4; 5]%N 0 [ExPipeDefs.WAcc 3; ExPipeDefs.WAcc 9] = ([1; 2; 3; 1; 2]%N, 5%nat, true) /\
+  (let s := ExPipeDefs.ex_main_x (fun _ => false) (fun _ _ _ => None) (fun _ _ => Some [88; 43; 89]%N) (fun _ => Some [120; 10; 121]%N)
+              (fun _ => None) [102]%N 100 100
+              (init_st [76; 49; 10; 76; 50; 10; 76; 51; 10; 76; 52; 10]%N
+                 [[50; 44; 51; 121; 32; 97]; [114; 120; 32; 97; 32; 106]; [36; 112; 117; 32; 97]; [49; 114; 32; 33; 99]; [50; 44; 51; 33; 106]]%N true) in
+   texts s = [[76; 49]; [88; 43; 89]; [76; 50]; [76; 51]; [76; 52]; [88; 43; 89]]%N /\ flags s = F_EOF /\ xrow s = 2).
+Proof. exact ExPipeProps.pipe_nonvacuous. Qed.
